@@ -275,8 +275,12 @@ def run_property(modname: str, tier: str, seed: int, workers: int) -> int:
 
     harness_errors = [r for r in results if "harness_error" in r]
     if harness_errors:
+        shown = set()
         for r in harness_errors:
-            sys.stderr.write(f"HARNESS-ERROR {prop}/{r['sub']}: {r['harness_error']}\n")
+            if r["sub"] in shown:
+                continue
+            shown.add(r["sub"])
+            sys.stderr.write(f"HARNESS-ERROR {prop}/{r['sub']}: {r['harness_error'][-3000:]}\n")
         return 2
 
     # 3. merge
@@ -312,7 +316,12 @@ def run_property(modname: str, tier: str, seed: int, workers: int) -> int:
         if r["exhaustive"] is not None:
             exhaustive_flags.append(r["exhaustive"])
         for k, v in r["extra"].items():
-            extra.setdefault(k, v)
+            if isinstance(v, int) and not isinstance(v, bool) and k.endswith("_evaluated"):
+                extra[k] = extra.get(k, 0) + v
+            elif isinstance(v, list):
+                extra.setdefault(k, []).extend(v)
+            else:
+                extra.setdefault(k, v)
     for s in subs:
         got = [x for x in results if x["sub"] == s.name]
         take = max(1, MAX_SAMPLES // max(1, len(subs)))
